@@ -346,6 +346,8 @@ struct Case {
     kf: &'static str,
     /// run on the four-worker instance of the library (exact inputs only)
     mt: bool,
+    /// large data set: compared in the harness, only a summary goes to Coq
+    big: bool,
 }
 
 #[derive(Clone, Debug)]
@@ -585,6 +587,38 @@ fn gen_weights(r: &mut Rng, n: usize, ty: u8, fam: &mut String) -> Cells {
     }
 }
 
+/// Doubles on which a slip of the type dispatch shows (a double read or converted as an integer, a sum or a
+/// tolerance truncated): proper fractions, non-dyadic fractional parts, magnitudes beyond 2^53, negative zero and
+/// subnormals.  All values are >= -0.0, so weight sums stay non-negative.
+fn special_doubles(r: &mut Rng, n: usize) -> (Vec<f64>, &'static str) {
+    match r.below(5) {
+        0 => ((0..n).map(|_| (r.below(1000) as f64 + 1.0) / 1001.0).collect(), "fractions-below-one"),
+        1 => ((0..n).map(|_| r.range(0, 50) as f64 + r.range(1, 9) as f64 / 10.0).collect(), "tenths"),
+        2 => ((0..n).map(|_| r.range(0, 6) as f64 + *r.pick(&[0.5, 0.25, 0.75, 0.125, 0.9])).collect(), "small-with-fraction"),
+        3 => (
+            (0..n)
+                .map(|_| match r.below(3) {
+                    0 => 9007199254740992.0 + 2.0 * r.below(50) as f64,
+                    1 => 1.0e19 + 4096.0 * r.below(50) as f64,
+                    _ => 3.5e18 * (1 + r.below(3)) as f64,
+                })
+                .collect(),
+            "beyond-2^53",
+        ),
+        _ => (
+            (0..n)
+                .map(|_| match r.below(4) {
+                    0 => -0.0,
+                    1 => f64::from_bits(1 + r.below(1000)),
+                    2 => f64::MIN_POSITIVE * (1 + r.below(4)) as f64,
+                    _ => 0.3 + r.below(4) as f64 * 0.7,
+                })
+                .collect(),
+            "negzero-subnormal",
+        ),
+    }
+}
+
 fn gen_points(r: &mut Rng, n: usize, dim: usize, grid: f64, fam: &mut String) -> Cells {
     let k = r.below(6);
     let mut v = Vec::with_capacity(n * dim);
@@ -737,7 +771,128 @@ fn pick_repr_tag(r: &mut Rng, slice_only: bool) -> (u8, u8) {
     (if slice_only { ARRAY } else { r.below(3) as u8 }, r.below(3) as u8)
 }
 
-fn gen_case(r: &mut Rng, tier: &str, slice_only: bool) -> Case {
+const BIG_SIZES: [usize; 8] = [4095, 4096, 4097, 5000, 8191, 8192, 8193, 10000];
+const BIG_RAGGED: [usize; 5] = [4097, 5000, 8191, 8193, 10000];
+const BIG_BOUNDARY: [usize; 3] = [4095, 4096, 8192];
+/// (entry, representation of the data the entry point copies): the first indices of a run are the large cases
+const BIG_COMBOS: [(u8, u8); 12] = [
+    (RIB, FN), (HILBERT, FN), (FM, FN), (RIB, ARRAY), (HILBERT, CONSTANT), (FM, ARRAY),
+    (RIB, CONSTANT), (HILBERT, ARRAY), (FM, CONSTANT), (RCB, FN), (RCB, ARRAY), (RCB, CONSTANT),
+];
+fn big_count(tier: &str, slice_only: bool) -> usize {
+    if slice_only {
+        0
+    } else if tier == "thorough" {
+        BIG_COMBOS.len() * BIG_SIZES.len()
+    } else {
+        // every (entry that copies, representation) twice: a length that is not a multiple of 4096 and a boundary one
+        18
+    }
+}
+
+/// Large data sets (4095 .. 10000 elements) for the entry points that copy a data set into a vector
+/// (coupe_rib points, coupe_hilbert points and weights, coupe_fiduccia_mattheyses weights; coupe_rcb in the
+/// thorough tier), every representation, element types in rotation.
+fn gen_big(r: &mut Rng, tier: &str, idx: usize) -> Case {
+    let (entry, repr, n) = if tier == "thorough" {
+        let (e, rp) = BIG_COMBOS[idx / BIG_SIZES.len()];
+        (e, rp, BIG_SIZES[idx % BIG_SIZES.len()])
+    } else {
+        let (e, rp) = BIG_COMBOS[(idx / 2) % 9];
+        (e, rp, if idx % 2 == 0 { *r.pick(&BIG_RAGGED) } else { *r.pick(&BIG_BOUNDARY) })
+    };
+    let other = r.below(3) as u8;
+    let wty = if entry == HILBERT { 2 } else { ((idx + r.below(3) as usize) % 3) as u8 };
+    let ints: Vec<i64> = (0..n).map(|_| r.range(1, 9)).collect();
+    let wcells = match wty {
+        0 => Cells::I32(ints.iter().map(|x| *x as i32).collect()),
+        1 => Cells::I64(ints),
+        _ => Cells::F64(ints.iter().map(|x| *x as f64 + *r.pick(&[0.0, 0.5, 0.3, 0.25])).collect()),
+    };
+    let mut c = Case { entry, dim: 0, points: None, weights: wrap(r, ARRAY, wty, 0, 1, Cells::I64(vec![])), adj: None, a: 0, b: 0, c: 0, f: 0.0, p0: vec![], family: String::new(), kf: "", mt: false, big: true };
+    let extra = r.below(2) as usize;
+    if entry == FM {
+        // a path with a few chords, or a grid of width 64
+        let mut rows: Vec<std::collections::BTreeMap<usize, i64>> = vec![Default::default(); n];
+        let grid = r.chance(1, 2);
+        for i in 0..n {
+            let mut e = |a: usize, b: usize, w: i64| {
+                if a != b && a < n && b < n {
+                    rows[a].insert(b, w);
+                    rows[b].insert(a, w);
+                }
+            };
+            if grid {
+                if i % 64 != 63 {
+                    e(i, i + 1, 1);
+                }
+                e(i, i + 64, 1);
+            } else {
+                e(i, i + 1, r.range(1, 4));
+                if r.chance(1, 50) {
+                    e(i, r.below(n as u64) as usize, 2);
+                }
+            }
+        }
+        let mut xadj = vec![0usize];
+        let mut adjncy = Vec::new();
+        let mut vals = Vec::new();
+        for row in &rows {
+            for (j, w) in row {
+                adjncy.push(*j);
+                vals.push(*w);
+            }
+            xadj.push(adjncy.len());
+        }
+        c.adj = Some(Adj { size: n, xadj, adjncy, vals: Cells::I64(vals) });
+        c.weights = wrap(r, repr, wty, n, 1, wcells);
+        c.a = 1;
+        c.b = 300;
+        c.c = 2;
+        c.f = 0.25;
+        let mut p0: Vec<usize> = (0..n).map(|_| r.below(2) as usize).collect();
+        p0.extend((0..extra).map(|i| 1000 + i));
+        c.p0 = p0;
+    } else {
+        c.dim = if entry == HILBERT { 0 } else if r.chance(1, 2) { 2 } else { 3 };
+        let w = if c.dim == 3 { 3 } else { 2 };
+        let pcells = Cells::F64((0..n * w).map(|_| r.range(-4000, 4000) as f64 * 0.25).collect());
+        c.points = Some(wrap(r, repr, 2, n, w, pcells));
+        // hilbert copies its weights too: same representation; rib / rcb iterate over them: any representation
+        c.weights = wrap(r, if entry == HILBERT { repr } else { other }, wty, n, 1, wcells);
+        if entry == HILBERT {
+            c.a = *r.pick(&[2usize, 5, 7, 16]);
+            c.b = *r.pick(&[6usize, 10, 16]);
+        } else {
+            c.a = *r.pick(&[2usize, 3, 4]);
+            c.f = 0.05;
+        }
+        c.p0 = (0..n + extra).map(|i| 1000 + i).collect();
+    }
+    c.family = format!(
+        "large/{}/{}-{}",
+        ENTRY_NAMES[entry as usize],
+        REPR_NAMES[repr as usize],
+        TY_NAMES[wty as usize]
+    );
+    c
+}
+
+fn digest(v: &[usize]) -> u64 {
+    let mut h: u64 = 0xcbf2_9ce4_8422_2325;
+    for x in v {
+        for b in (*x as u64).to_le_bytes() {
+            h ^= b as u64;
+            h = h.wrapping_mul(0x0000_0100_0000_01b3);
+        }
+    }
+    h >> 1
+}
+
+fn gen_case(r: &mut Rng, tier: &str, slice_only: bool, idx: usize) -> Case {
+    if idx < big_count(tier, slice_only) {
+        return gen_big(r, tier, idx);
+    }
     let big = tier == "thorough";
     let entry = if slice_only {
         GREEDY
@@ -760,11 +915,17 @@ fn gen_case(r: &mut Rng, tier: &str, slice_only: bool) -> Case {
     let (wrepr, wty) = pick_repr_tag(r, slice_only);
     let mut special = String::new();
     let mut scratch = String::new();
-    let mut c = Case { entry, dim: 0, points: None, weights: wrap(r, ARRAY, wty, 0, 1, Cells::I64(vec![])), adj: None, a: 0, b: 0, c: 0, f: 0.0, p0: vec![], family: String::new(), kf: "", mt: false };
+    let mut dbl = ""; // family of special doubles used for the weights, if any
+    let mut c = Case { entry, dim: 0, points: None, weights: wrap(r, ARRAY, wty, 0, 1, Cells::I64(vec![])), adj: None, a: 0, b: 0, c: 0, f: 0.0, p0: vec![], family: String::new(), kf: "", mt: false, big: false };
     let extra = r.below(3) as usize;
     match entry {
         GREEDY | KK | CKK => {
             let mut wcells = gen_weights(r, n, wty, &mut scratch);
+            if wty == 2 && !slice_only && r.chance(1, 2) {
+                let (v, name) = special_doubles(r, n);
+                wcells = Cells::F64(v);
+                dbl = name;
+            }
             c.a = match r.below(8) {
                 0 => 0,
                 1 => 1,
@@ -823,6 +984,9 @@ fn gen_case(r: &mut Rng, tier: &str, slice_only: bool) -> Case {
             let t = wcells.ty();
             c.weights = wrap(r, wrepr, t, n, 1, wcells);
             fam.push_str(&format!("{}-{}", REPR_NAMES[wrepr as usize], TY_NAMES[t as usize]));
+            if !dbl.is_empty() && special.is_empty() {
+                fam.push_str(&format!("/{}", dbl));
+            }
             c.p0 = (0..n + extra).map(|i| 1000 + i).collect();
         }
         RCB | RIB | HILBERT => {
@@ -872,6 +1036,15 @@ fn gen_case(r: &mut Rng, tier: &str, slice_only: bool) -> Case {
                     *x = x.abs() + 1.0;
                 }
             }
+            if entry == HILBERT && wt == 2 && !c.mt && r.chance(1, 2) {
+                // (not on the four-worker instance: these sums are not exact)
+                let (mut v, name) = special_doubles(r, wn);
+                if let Some(x) = v.first_mut() {
+                    *x += 0.5; // a positive total whatever the family
+                }
+                wcells = Cells::F64(v);
+                dbl = name;
+            }
             if let Cells::I32(v) = &mut wcells {
                 for x in v.iter_mut() {
                     *x = x.abs() + 1;
@@ -908,6 +1081,9 @@ fn gen_case(r: &mut Rng, tier: &str, slice_only: bool) -> Case {
                 }
             }
             fam.push_str(&format!("{}-points/{}-{}", REPR_NAMES[prepr as usize], REPR_NAMES[wrepr as usize], TY_NAMES[wt as usize]));
+            if !dbl.is_empty() {
+                fam.push_str(&format!("/{}", dbl));
+            }
             c.p0 = (0..n.max(wn) + extra).map(|i| 1000 + i).collect();
         }
         FM => {
@@ -1114,6 +1290,7 @@ fn warm_up(api: &Api) {
         family: String::new(),
         kf: "",
         mt: false,
+        big: false,
     };
     let mut arr = c.p0.clone();
     let code = run_c(api, &c, &mut arr);
@@ -1192,7 +1369,7 @@ fn main() {
         for i in 0..=last {
             let mut r = rng.fork();
             if list.contains(&i) {
-                cases.insert(i, gen_case(&mut r, &a.tier, slice_only));
+                cases.insert(i, gen_case(&mut r, &a.tier, slice_only, i));
             }
         }
         for i in &list {
@@ -1229,6 +1406,7 @@ fn main() {
 
     let mut w = CaseWriter::new(&a.out, "From Coq Require Import Uint63.\nFrom Coupe Require Import Lib.Prelude Lib.Report Model.Ffi Run.RunC17.", "case17", "run17", 250);
     let (mut hangs, mut ref_panics, mut aborts) = (0usize, 0usize, 0usize);
+    let mut large = 0usize;
     // (1) the cases and the Rust reference
     let mut all: Vec<(usize, Case, RefRes)> = Vec::new();
     for idx in 0..a.cases {
@@ -1238,7 +1416,7 @@ fn main() {
                 continue;
             }
         }
-        let c = gen_case(&mut r, &a.tier, slice_only);
+        let c = gen_case(&mut r, &a.tier, slice_only, idx);
         let c1 = c.clone();
         let t_case = std::time::Instant::now();
         let rr = guarded(if c.mt { 4 } else { 0 }, Duration::from_secs(20), move || {
@@ -1304,6 +1482,80 @@ fn main() {
             }
         };
         // (3) the case
+        if c.big {
+            // compared here; only the summary goes to Coq (Run/RunC17.v, prop_large)
+            let n = c.weights.len;
+            let (rarr, rcoq, rjson): (Option<&Vec<usize>>, String, String) = match &rres {
+                RefRes::Ok(arr) => (Some(arr), "(RROk [])".into(), "\"ok\"".into()),
+                RefRes::Err(e, d, arr) => (Some(arr), format!("(RRErr {} [])", e), json_str(d)),
+                RefRes::Panic(m) => (None, "RRPanic".into(), format!("{{\"panic\":{}}}", json_str(m))),
+                _ => (None, "RRHang".into(), "\"hang\"".into()),
+            };
+            let (code, carr) = match &cres {
+                CRes::Ret(code, arr) => (*code, Some(arr)),
+                _ => (-1, None),
+            };
+            let (mut verdict, mut first, mut ndiff, mut h1, mut h2) = (0u64, 0usize, 0usize, 0u64, 0u64);
+            if let (Some(ra), Some(ca)) = (rarr, carr) {
+                h1 = digest(ra);
+                h2 = digest(ca);
+                if c.entry == FM && matches!(rres, RefRes::Ok(_)) {
+                    // HashSet order: only the deterministic shape (ids in {0,1}, tail untouched, cut not worse)
+                    let a = c.adj.as_ref().unwrap();
+                    let vals = match &a.vals {
+                        Cells::I64(v) => v,
+                        _ => unreachable!(),
+                    };
+                    let cut = |p: &[usize]| -> i64 {
+                        let mut s = 0;
+                        for i in 0..a.size {
+                            for k in a.xadj[i]..a.xadj[i + 1] {
+                                if p[i] != p[a.adjncy[k]] {
+                                    s += vals[k];
+                                }
+                            }
+                        }
+                        s
+                    };
+                    let ok = ca.len() == c.p0.len() && ca[..n].iter().all(|x| *x <= 1) && ca[n..] == c.p0[n..] && cut(&ca[..n]) <= cut(&c.p0[..n]);
+                    verdict = ok as u64;
+                } else {
+                    for i in 0..ra.len().max(ca.len()) {
+                        if ra.get(i) != ca.get(i) {
+                            if ndiff == 0 {
+                                first = i + 1;
+                            }
+                            ndiff += 1;
+                        }
+                    }
+                    verdict = (ndiff == 0) as u64;
+                }
+            } else if matches!(rres, RefRes::Panic(_)) && carr.is_some() {
+                verdict = 1;
+            }
+            let (prep, ptag) = c.points.as_ref().map(|p| (p.repr, p.tag)).unwrap_or((9, 9));
+            let ccoq = match &cres {
+                CRes::Ret(code, _) => format!("(CRet {}%N [])", code),
+                CRes::Abort(_) => "CAbort".into(),
+                CRes::Hang => "CHang".into(),
+            };
+            let coq = format!(
+                "mk17 {}%N {}%N (DArray 0 TDouble []) (DArray 0 TDouble []) (mk_adj 0 [] [] TInt64 []) [{};{};{};{};{};{};{};{};{};{}]%N [] (Some (mk_ref {} [] [] [] {})) {}",
+                10 + c.entry, c.dim, n, prep, ptag, c.weights.repr, c.weights.tag, verdict, first, ndiff, h1, h2, numty(&c), rcoq, ccoq
+            );
+            let json = format!(
+                "{{\"entry\":\"coupe_{}\",\"large\":true,\"elements\":{},\"dimension\":{},\"points\":{},\"weights\":\"{}-{}\",\"a\":{},\"b\":{},\"c\":{},\"f\":\"{:e}\",\"rust\":{},\"c_code\":{},\"arrays_equal_or_shape_ok\":{},\"first_differing_index\":{},\"differing_cells\":{},\"digest_rust\":{},\"digest_c\":{}}}",
+                ENTRY_NAMES[c.entry as usize], n, c.dim,
+                c.points.as_ref().map(|p| format!("\"{}-{}\"", REPR_NAMES[p.repr as usize], TY_NAMES[p.tag as usize])).unwrap_or_else(|| "null".into()),
+                REPR_NAMES[c.weights.repr as usize], TY_NAMES[c.weights.tag as usize],
+                c.a, c.b, c.c, c.f, rjson, code, verdict == 1,
+                if first == 0 { "null".to_string() } else { (first - 1).to_string() }, ndiff, h1, h2
+            );
+            let key = format!("large|{}|{}|{:?}|{}|{}|{}|{}", c.entry, n, (prep, c.weights.repr, c.weights.tag), c.dim, c.a, c.b, h1);
+            large += 1;
+            w.push(coq, json, &key, true, &c.family);
+            continue;
+        }
         let wl = c.weights.logical();
         let params: Vec<Option<u128>> = match c.entry {
             RCB | RIB => vec![Some(c.a as u128), Some(c.f.to_bits() as u128)],
@@ -1400,7 +1652,7 @@ fn main() {
         w.push(coq, json, &key, nontrivial, &c.family);
     }
     w.finish(&format!(
-        "\"hangs\":{},\"rust_panics\":{},\"aborts\":{},\"child_runs\":{}",
-        hangs, ref_panics, aborts, children
+        "\"hangs\":{},\"rust_panics\":{},\"aborts\":{},\"child_runs\":{},\"large_cases\":{}",
+        hangs, ref_panics, aborts, children, large
     ));
 }
